@@ -603,3 +603,79 @@ func init() {
 	fleetHooks["C12"] = func() fleetHook { return hookC12{} }
 	fleetHooks["C13"] = func() fleetHook { return hookC13{} }
 }
+
+// ---- C05, sketch level: accuracy of quantiles that fall in retained bins ---------------------
+
+type hookC05 struct{ noHook }
+
+// retained reports whether a value sits in a bin that the bounded store still
+// holds on its own (not the edge bin, not folded).
+func retained(nd *knode, v float64) bool {
+	side, idx := route(nd.mapping, v)
+	var st *refmodel.RefStore
+	switch side {
+	case 0:
+		return true
+	case 1:
+		st = nd.model.Pos
+	default:
+		st = nd.model.Neg
+	}
+	edge, folded := st.Edge()
+	if !folded {
+		return true
+	}
+	if st.Kind == refmodel.CLow {
+		return idx > edge
+	}
+	return idx < edge
+}
+
+func (hookC05) query(x *fleetExec, e engine.Event, nd *knode) {
+	if nd.model.NonUnit || nd.model.Lossy || nd.exact() {
+		return
+	}
+	sig := x.sigFor(e)
+	items := nd.model.Sorted(nd.mapping.MinIndexableValue())
+	if len(items) == 0 {
+		return
+	}
+	n := int(nd.model.Count())
+	minIdx := nd.mapping.MinIndexableValue()
+	alpha := nd.alpha()
+	for _, qf := range e.Q {
+		q := float64(qf)
+		if !(q >= 0 && q <= 1) {
+			continue
+		}
+		r := refmodel.RankExact(q, float64(n))
+		lo, hi := refmodel.FloorCeil(r)
+		ilo, ihi := refmodel.ItemAt(items, lo), refmodel.ItemAt(items, hi)
+		if !retained(nd, ilo.Raw) || !retained(nd, ihi.Raw) {
+			x.st.Probe("quantile-in-collapsed-range(skipped)")
+			continue
+		}
+		var got float64
+		var err error
+		x.lib("GetValueAtQuantile", sig, func() { got, err = nd.real.GetValueAtQuantile(q) })
+		x.st.Oracle("retained-bin-accuracy")
+		x.st.Note(fbits(got))
+		if err != nil {
+			x.fail("retained-bin-accuracy", sig, fmt.Sprintf("GetValueAtQuantile(%v) on a non-empty sketch failed: %v", q, err), "a value", err.Error())
+		}
+		if !withinAlphaItem(got, ilo, alpha, minIdx) && !withinAlphaItem(got, ihi, alpha, minIdx) {
+			x.fail("retained-bin-accuracy", sig, fmt.Sprintf("quantile %v of %d values falls in a retained bin of a collapsing sketch but is not within alpha=%v of the order statistic", q, n, alpha),
+				fmt.Sprintf("within %v of %v or %v", alpha, ilo.V, ihi.V), fmt.Sprint(got))
+		}
+		x.st.ProbeIf(nd.model.Folded(), "accurate-quantile-on-a-collapsed-sketch")
+	}
+}
+
+func (hookC05) after(x *fleetExec, e engine.Event, nd *knode) {
+	// content, bounds and conservation at sketch level as well
+	if refmodel.IsCollapsing(nd.spec.Store) {
+		x.compareContent(nd.real, nd.model, "folded-content", x.sigFor(e), "collapsing sketch after "+e.Ev)
+	}
+}
+
+func init() { fleetHooks["C05"] = func() fleetHook { return hookC05{} } }
